@@ -782,6 +782,10 @@ mut("c14-maporder-caseless-tiebreak", "C14", "cmd/gts/summary.go", "\treturn pp[
 mut("c14-maporder-unsorted", "C14", "cmd/gts/summary.go", "\t\tsort.Sort(byValue(props))\n", "", ["MAP-ORDER|main.summaryFunc|map-range#2(props)"])
 mut("c14-maporder-silent-descending", "C14", "cmd/gts/summary.go", "\treturn pp[i].Key < pp[j].Key\n", "\treturn pp[j].Key > pp[i].Key\n", silent=True)
 
+mut("c07-eofmask-reverted", "C07", "seqio/scanner.go", "func (s Scanner) Err() error {\n\treturn s.err\n}", "func (s Scanner) Err() error {\n\tif s.err == nil || dig(s.err) == io.EOF {\n\t\treturn nil\n\t}\n\treturn s.err\n}", ["EOF-MASK|seqio.Scanner.Err"], note="the repaired defect, reintroduced")
+mut("c07-eofmask-errors-is-in-scan", "C07", "seqio/scanner.go", "\ts.res, s.err = s.p.Parse(s.s)\n\treturn s.err == nil\n", "\ts.res, s.err = s.p.Parse(s.s)\n\tif errors.Is(s.err, io.EOF) {\n\t\ts.err, s.end = nil, true\n\t\treturn false\n\t}\n\treturn s.err == nil\n", ["EOF-MASK|seqio.Scanner.Scan"], old2="import (\n", new2="import (\n\t\"errors\"\n")
+mut("c07-eofmask-silent-exhausted-inline", "C07", "seqio/scanner.go", "\tif s.exhausted() {\n\t\ts.end = true\n\t\treturn false\n\t}\n", "\tif done := s.exhausted(); done {\n\t\ts.end = done\n\t\treturn false\n\t}\n", silent=True)
+
 if __name__ == "__main__":
     here = os.path.dirname(os.path.abspath(__file__))
     ids = [m["id"] for m in M]
